@@ -70,12 +70,12 @@ func RunCheck(target string, strictMode bool, enableScan bool, dbPath string, no
 // -- Core Logic --
 
 func RunCheckLogic(fsys FileSystem, target string, strictMode bool, enableScan bool, dbPath string) error {
-	files, err := CollectFiles(fsys, target)
+	files, skipped, err := CollectFilesWithSkipped(fsys, target)
 	if err != nil {
 		return fmt.Errorf("collect files failed: %w", err)
 	}
 
-	if len(files) == 0 {
+	if len(files) == 0 && len(skipped) == 0 {
 		return fmt.Errorf("no Go files found in %s", target)
 	}
 
@@ -112,6 +112,16 @@ func RunCheckLogic(fsys FileSystem, target string, strictMode bool, enableScan b
 	results, hasErrors, err := ProcessFilesParallel(fsys, files, strictMode, scanner)
 	if err != nil {
 		return err
+	}
+
+	// Paths the walk could not read are part of the target that escaped analysis:
+	// report them with an error (and let strict mode fail) instead of only warning.
+	for _, sk := range skipped {
+		results = append(results, models.FileOutput{
+			File:         sk.Path,
+			ErrorMessage: "walk failed: " + sk.Err.Error(),
+		})
+		hasErrors = true
 	}
 
 	encoder := json.NewEncoder(os.Stdout)
